@@ -23,9 +23,8 @@ def _deps():
 
 
 # property id -> (module, evidence level, technique)
-CHECKS = {
-    'C18': ('c18', 'other', 'ABI layout comparison (clang record layouts vs ctypes layout calculator over _fields_ AST) + table agreement'),
-}
+from .claims import CLAIMS
+CHECKS = {k: (v['module'], v['level'], v['technique']) for k, v in CLAIMS.items()}
 
 
 def main(argv):
